@@ -35,10 +35,16 @@ type HarnessSpec struct {
 	Quick         int // shards in quick tier (0 = not run in quick)
 	Thorough      int
 	Steps         int64
-	Timeout       int // seconds per shard
+	Timeout       int      // seconds per shard
+	Models        []string // groups of package-scoped models enabled for this harness (nil = all)
 	NoMerge       bool
 	MergeConcrete bool
 	Fn            *ssa.Function
+}
+
+type scopedModel struct {
+	target, group string
+	fn            *ssa.Function
 }
 
 type Engine struct {
@@ -54,13 +60,13 @@ type Engine struct {
 	base         map[int]Value
 	baseNext     int
 
-	redirect       map[string]*ssa.Function
-	scopedRedirect map[string]map[string]*ssa.Function
-	harnessFns     map[*ssa.Function]bool
-	intrinsic      map[*ssa.Function]bool
-	harnesses      map[string]*HarnessSpec
-	overlay        map[string][]byte
-	rtFiles        map[string]bool
+	redirect     map[string]*ssa.Function
+	scopedModels map[string][]scopedModel
+	harnessFns   map[*ssa.Function]bool
+	intrinsic    map[*ssa.Function]bool
+	harnesses    map[string]*HarnessSpec
+	overlay      map[string][]byte
+	rtFiles      map[string]bool
 
 	methodCache sync.Map
 	implCache   sync.Map
@@ -112,7 +118,7 @@ func loadEngine(repo, verifDir string, tier int, verbose bool) *Engine {
 	t0 := time.Now()
 	e := &Engine{repo: repo, verifDir: verifDir, tier: tier, verbose: verbose,
 		globals: map[*ssa.Global]int{}, globalName: map[int]string{}, uninitGlobal: map[int]bool{},
-		base: map[int]Value{}, redirect: map[string]*ssa.Function{}, scopedRedirect: map[string]map[string]*ssa.Function{}, harnessFns: map[*ssa.Function]bool{},
+		base: map[int]Value{}, redirect: map[string]*ssa.Function{}, scopedModels: map[string][]scopedModel{}, harnessFns: map[*ssa.Function]bool{},
 		intrinsic: map[*ssa.Function]bool{}, harnesses: map[string]*HarnessSpec{}, overlay: map[string][]byte{},
 		rtFiles: map[string]bool{}, coverDecl: map[string][]string{}, boundsDoc: map[string]string{}, assumeDoc: map[string][]string{}, ssaPkgs: map[string]*ssa.Package{}, siteIfs: map[*ssa.If]string{}, siteFns: map[*ssa.Function]string{}, siteDesc: map[string]*KnownFinding{}}
 
@@ -243,11 +249,14 @@ func loadEngine(repo, verifDir string, tier int, verbose bool) *Engine {
 				for _, c := range fd.Doc.List {
 					// models declared in a harness file are scoped to the harnesses of that package
 					if strings.HasPrefix(c.Text, "//verif:model ") {
-						target := strings.TrimSpace(strings.TrimPrefix(c.Text, "//verif:model "))
-						if e.scopedRedirect[pk.PkgPath] == nil {
-							e.scopedRedirect[pk.PkgPath] = map[string]*ssa.Function{}
+						fields := strings.Fields(strings.TrimPrefix(c.Text, "//verif:model "))
+						target, group := fields[0], "default"
+						for _, f := range fields[1:] {
+							if strings.HasPrefix(f, "group=") {
+								group = strings.TrimPrefix(f, "group=")
+							}
 						}
-						e.scopedRedirect[pk.PkgPath][target] = fn
+						e.scopedModels[pk.PkgPath] = append(e.scopedModels[pk.PkgPath], scopedModel{target, group, fn})
 					}
 				}
 				for _, c := range fd.Doc.List {
@@ -269,6 +278,8 @@ func loadEngine(repo, verifDir string, tier int, verbose bool) *Engine {
 							h.Timeout, _ = strconv.Atoi(m[2])
 						case "nomerge":
 							h.NoMerge = m[2] == "1"
+						case "models":
+							h.Models = strings.Split(m[2], ",")
 						case "merge":
 							h.MergeConcrete = m[2] == "concrete"
 							h.NoMerge = m[2] == "none"
